@@ -7,6 +7,8 @@ Line protocol of the C01 model.
                                the order MRP DMAP Companion AirPlay RAOP) are connected and protocol
                                `t` (`-` = nobody) holds a takeover of every interface; `v` = 1 iff the
                                AirPlay service advertises video (PlayUrl gate)
+  synth <t> <regs> <impls>     stateless, ARBITRARY tables (the generic relayer with the facade's priority lists):
+                               regs = Iface:P+P,… who registered an instance; impls = Iface.member:P+P,… who overrides it
   reset <S> <v>                start a history on a fresh facade            → ok
   takeover <p> <i,i,…>         FacadeAppleTV.takeover(p, *ifaces); `?` = an object that is no
                                interface, `-` = no interfaces           → ok <id> <holders> <table>
@@ -63,6 +65,25 @@ def handle (d : DState) (ws : List String) : DState × String :=
     match parseSet? s, (if t == "-" then some [] else (parseProto? t).map fun p => [p]), parseBit? v with
     | some S, some t, some v => (d, tableStr S (fun _ => t) (freshEnv v))
     | _, _, _ => (d, "bad-op")
+  | ["synth", t, regs, impls] =>
+    -- arbitrary tables: regs = Iface:P+P,…  (who registered an instance), impls = Iface.member:P+P,… (who overrides it)
+    let parseProtos := fun (x : String) => (x.splitOn "+").filterMap parseProto?
+    let regOf := fun (i : Iface) =>
+      ((regs.splitOn ",").filterMap fun e =>
+        match e.splitOn ":" with
+        | [n, ps] => if n == i.name then some (parseProtos ps) else none
+        | _ => none).flatten
+    let implOf := fun (m : Member) =>
+      ((impls.splitOn ",").filterMap fun e =>
+        match e.splitOn ":" with
+        | [n, ps] => if n == s!"{m.iface.name}.{m.name}" then some (parseProtos ps) else none
+        | _ => none).flatten
+    match (if t == "-" then some [] else (parseProto? t).map fun p => [p]) with
+    | some t =>
+      (d, csv (Member.all.map fun m =>
+        let r : Relayer Proto := { prio := relayerPrio m.iface, reg := fun p => (regOf m.iface).contains p, takeover := t }
+        s!"{m.iface.name}.{m.name}={resStr (r.relay (fun p => (implOf m).contains p) (callOverride m.iface))}"))
+    | none => (d, "bad-op")
   | ["reset", s, v] =>
     match parseSet? s, parseBit? v with
     | some S, some v => (⟨S, v, HState.init (mkFacade S fun _ => [])⟩, "ok")
